@@ -258,6 +258,40 @@ fn check_map_target<const N: usize, const M: usize>(cx: &mut Ctx, src: &Map<u8, 
             Err(e) => cx.violate(PM, format!("Map {src:?} (len {}) does not decode into sufficient capacity {M} (size hints: {hints}): {e}", src.len())),
         }
     }
+    // deserialize_in_place into an existing container: whatever it held before, it must end up
+    // equal to the original. Targets: empty; holding a key the source lacks; holding a source key
+    // with another value; full of foreign keys.
+    for prefill in 0..4u8 {
+        let mut target = Map::<u8, u8, M>::new();
+        match prefill {
+            1 if M >= 1 => {
+                target.insert(200, 9);
+            }
+            2 if M >= 1 => {
+                if let Some((k, v)) = src.iter().next() {
+                    target.insert(*k, v.wrapping_add(1));
+                }
+            }
+            3 => {
+                for i in 0..M {
+                    target.insert(100 + i as u8, 7);
+                }
+            }
+            _ => {}
+        }
+        let before = format!("{target:?}");
+        let mut de = De { toks, pos: 0, hints: prefill % 2 == 0 };
+        let r = <Map<u8, u8, M> as Deserialize>::deserialize_in_place(&mut de, &mut target);
+        cx.evaluations += 1;
+        match r {
+            Ok(()) => {
+                cx.check(PM, target == *src && *src == target && target.len() == src.len(), || {
+                    format!("deserialize_in_place of {src:?} into a Map<_,_,{M}> holding {before} gives {target:?}")
+                });
+            }
+            Err(e) => cx.violate(PM, format!("deserialize_in_place of {src:?} into a Map<_,_,{M}> holding {before} fails: {e}")),
+        };
+    }
     let r: Result<(Map<u8, u8, M>, usize), _> = bincode::serde::decode_from_slice(bytes, bincode::config::legacy());
     cx.evaluations += 1;
     match r {
@@ -280,6 +314,32 @@ fn check_set_target<const N: usize, const M: usize>(cx: &mut Ctx, src: &Set<u8, 
             }
             Err(e) => cx.violate(PM, format!("Set {src:?} (len {}) does not decode into sufficient capacity {M} (size hints: {hints}): {e}", src.len())),
         }
+    }
+    for prefill in 0..3u8 {
+        let mut target = Set::<u8, M>::new();
+        match prefill {
+            1 if M >= 1 => {
+                target.insert(200);
+            }
+            2 => {
+                for i in 0..M {
+                    target.insert(100 + i as u8);
+                }
+            }
+            _ => {}
+        }
+        let before = format!("{target:?}");
+        let mut de = De { toks, pos: 0, hints: prefill % 2 == 0 };
+        let r = <Set<u8, M> as Deserialize>::deserialize_in_place(&mut de, &mut target);
+        cx.evaluations += 1;
+        match r {
+            Ok(()) => {
+                cx.check(PM, target == *src && *src == target && target.len() == src.len(), || {
+                    format!("deserialize_in_place of {src:?} into a Set<_,{M}> holding {before} gives {target:?}")
+                });
+            }
+            Err(e) => cx.violate(PM, format!("deserialize_in_place of {src:?} into a Set<_,{M}> holding {before} fails: {e}")),
+        };
     }
     let r: Result<(Set<u8, M>, usize), _> = bincode::serde::decode_from_slice(bytes, bincode::config::legacy());
     cx.evaluations += 1;
